@@ -386,7 +386,11 @@ class Parser:
                                     hard=True, brk=True)]
                         + self.generate_replacements(arguments_extr,
                                                         mac.extract, start))
+            # a language switch inside of the extracted text ends with it
+            lang_stack = self.parms.parser_lang_stack.copy()
             self.extracted.append(self.expand_sequence(scanner.Buffer(toks)))
+            self.parms.parser_lang_stack[:] = lang_stack
+            self.parms.lang_context = lang_stack[-1][0]
         out = [defs.ActionToken(start)]
         if callable(mac.repl):
             return out + mac.repl(self, buf, mac, arguments, delimiters, start)
